@@ -329,10 +329,15 @@ func (s *Sim) OnEnd(f func()) { s.cleanups = append(s.cleanups, f) }
 // If two tasks park under one name the later gets a "#k" suffix in arrival order; worlds avoid that.
 func (s *Sim) Park(name string) {
 	s.mu.Lock()
-	if s.rootActive && !s.ending {
-		// only the root runs while rootActive is set (every other goroutine is durably blocked)
+	if s.rootActive {
+		// Usually only the root runs while rootActive is set, but a goroutine woken by a root action may
+		// get here before the root waits for quiescence: tell them apart by goroutine id (only needed in
+		// this ambiguous case, the lookup is not free).
 		s.mu.Unlock()
-		return
+		if goid() == s.rootGoid {
+			return
+		}
+		s.mu.Lock()
 	}
 	if s.ending {
 		s.mu.Unlock()
@@ -660,7 +665,12 @@ func (s *Sim) ActorName() string {
 func (s *Sim) yield(site string) {
 	s.mu.Lock()
 	ending := s.ending
-	root := s.rootActive && !ending
+	root := s.rootActive
+	if root {
+		s.mu.Unlock()
+		root = goid() == s.rootGoid
+		s.mu.Lock()
+	}
 	pct, salt := s.l2Percent, s.l2Salt
 	s.mu.Unlock()
 	spin := strings.HasSuffix(site, ".spin")
